@@ -38,6 +38,8 @@ for d in sorted(glob.glob(os.path.join(HERE, "seeded", "*"))):
     except Exception:
         continue
     res = "**detected**" if ev.get("detected") else ("not confirmed" if not ev.get("confirmed") else "MISSED")
+    if ev.get("detected_by_other_check"):
+        res = "missed by this property's check; **detected** by another registered check (" + ev["detected_by_other_check"] + ")"
     if ev.get("detected_after_strengthening"):
         res = "missed at first; **detected** after strengthening (" + ev["detected_after_strengthening"] + ")"
     rows.append(f"| {ev['id']} | {cell(m.get('title',''))} — needs: {cell(m.get('needs',''))[:260]} | {ev.get('existing_suite_with_patch','')} | {res} |")
